@@ -4,6 +4,7 @@ import (
 	"fmt"
 	"strings"
 	"sync/atomic"
+	"time"
 
 	"github.com/fluffle/goirc/client"
 
@@ -61,6 +62,18 @@ func (sc c17Script) String() string {
 }
 
 func runC17(c *Ctx) {
+	// delay injection through the capturing logger: the library warns about a nick change on connect
+	// between reading the welcome and storing the nick — stretch exactly that window
+	lgr := rig.NewCapLogger(nil)
+	lgr.Discard = func(r *rig.LogRecord) bool { return true }
+	lgr.OnRec = func(r *rig.LogRecord) {
+		if strings.HasPrefix(r.Format, "Server changed our nick on connect") {
+			for k := 0; k < 50; k++ {
+				runtimeGosched()
+			}
+			time.Sleep(300 * time.Microsecond)
+		}
+	}
 	switch c.Arg("mode", "") {
 	case "defnick":
 		runC17DefNick(c)
@@ -197,6 +210,12 @@ func c17Run(c *Ctx, gen string, idx int, sc c17Script) bool {
 	for _, ev := range []string{"433", "NICK", client.CONNECTED} {
 		conn.HandleFunc(ev, probe)
 	}
+	var connectedNick atomic.Value
+	conn.HandleFunc(client.CONNECTED, func(cc *client.Conn, l *client.Line) {
+		if me := cc.Me(); me != nil {
+			connectedNick.Store(me.Nick)
+		}
+	})
 	mc, err := s.Connect()
 	if err != nil {
 		c.R.Inconcl("connect: " + err.Error())
@@ -243,7 +262,13 @@ func c17Run(c *Ctx, gen string, idx int, sc c17Script) bool {
 	if sc.WelcomeDif {
 		srvNick = "given"
 	}
-	mc.SendLine(fmt.Sprintf(":srv 001 %s :Welcome to the network %s!ident@host", srvNick, srvNick))
+	welcomeText := []string{
+		fmt.Sprintf("Welcome to the network %s!ident@host", srvNick),
+		fmt.Sprintf("Welcome to the Internet Relay Network %s", srvNick),
+		"Welcome",
+		fmt.Sprintf("Welcome %s!~id@some.host.example", srvNick),
+	}[(idx+sc.Collisions)%4]
+	mc.SendLine(fmt.Sprintf(":srv 001 %s :%s", srvNick, welcomeText))
 	if sc.Joined {
 		mc.SendLine(fmt.Sprintf(":%s!ident@host JOIN #c", srvNick))
 	}
@@ -282,6 +307,9 @@ func c17Run(c *Ctx, gen string, idx int, sc c17Script) bool {
 	}
 	if !check("after the welcome") {
 		return c.R.NumViolations() < 30
+	}
+	if n, _ := connectedNick.Load().(string); n != srvNick {
+		viol("connected-handler-nick", fmt.Sprintf("inside the CONNECTED handler Me().Nick was %q, the welcome said %q", n, srvNick))
 	}
 	others := []string{"bob", srvNick + "x", "x" + srvNick, strings.ToUpper(srvNick), "me", "given"}
 	for i, e := range sc.Events {
